@@ -28,8 +28,11 @@ def bits(rnd, n, fam):
     return "".join(rnd.choice("01") for _ in range(n)) + "0" * (w - n)
 
 
-def gen_conversation(rnd, nreloads, setsize, nkeys, disjoint=False):
-    """Data sets 0..nreloads for this socket, records of another source, a query set, and the byte script."""
+def gen_conversation(rnd, nreloads, setsize, nkeys, disjoint=False, bad_p=0.0):
+    """Data sets 0..nreloads for this socket, records of another source, a query set, and the byte script.
+    bad_p: probability that a reload is first answered by a response that fails at End of Data (its last record announced twice:
+    everything before it has been applied to the tables built aside, and is rolled back there) - the readers must keep seeing the
+    complete OLD set until the repeated, correct answer has been swapped in."""
     pool = []
     while len(pool) < 3 * setsize:
         fam = rnd.choice("4446")
@@ -73,20 +76,26 @@ def gen_conversation(rnd, nreloads, setsize, nkeys, disjoint=False):
     for k, (ps, ks) in enumerate(sets):
         lines += ["set %d pfx %s %s %d %d %d" % ((k,) + r) for r in ps] + ["set %d key %d %d" % ((k,) + x) for x in ks]
     lines += qs
-    lines.append("open " + " ".join("1" for _ in range(8)))
+    bad = [k for k in range(1, nreloads + 1) if rnd.random() < bad_p]
+    lines.append("open " + " ".join("1" for _ in range(8 + len(bad))))
 
-    def response(k):
+    def response(k, broken=False):
         ps, ks = sets[k]
         out = rtrsim.cache_response(1, SESSION)
         for r in ps:
             out += rtrsim.prefix_pdu(1, r, 1)
         for x in ks:
             out += rtrsim.key_pdu(1, x, 1)
+        if broken:
+            out += rtrsim.key_pdu(1, ks[-1], 1) if ks and rnd.random() < 0.5 else rtrsim.prefix_pdu(1, ps[-1], 1)
         return out + rtrsim.eod(1, SESSION, k + 1)
     evs = [("data", response(0)), ("gate",)]
     for k in range(1, nreloads + 1):
-        evs += [("wait", 3601), ("data", rtrsim.cache_reset(1)), ("mark", "s%d" % k), ("data", response(k)), ("mark", "d%d" % k)]
-    return lines, evs, {"sets": len(sets), "setsize": [len(s[0]) for s in sets][:4], "queries": len(qs)}
+        evs += [("wait", 3601), ("data", rtrsim.cache_reset(1)), ("mark", "s%d" % k)]
+        if k in bad:
+            evs += [("data", response(k, broken=True))]      # fails at End of Data; the client reconnects and asks again
+        evs += [("data", response(k)), ("mark", "d%d" % k)]
+    return lines, evs, {"sets": len(sets), "setsize": [len(s[0]) for s in sets][:4], "queries": len(qs), "failed_reloads": len(bad)}
 
 
 def script_text(lines, evs, readers, for_rtr_run=False):
@@ -177,7 +186,7 @@ def run(chk):
     ntie = 3 if quick else 25
     tie_runs = 0
     for i in range(ntie):
-        lines, evs, meta = gen_conversation(rnd, nreloads=rnd.randint(1, 3), setsize=rnd.randint(3, 12), nkeys=rnd.randint(0, 3))
+        lines, evs, meta = gen_conversation(rnd, nreloads=rnd.randint(1, 3), setsize=rnd.randint(3, 12), nkeys=rnd.randint(0, 3), bad_p=0.5)
         sl = script_text(lines, evs, readers, for_rtr_run=True)
         rc_i, impl = rtrsim.run_impl(sl)
         rc_m, model = rtrsim.run_model(sl)
@@ -193,7 +202,7 @@ def run(chk):
     # ---- supporting: readers against the real reload ----
     plan = [("corpus/" + n, t) for n, t in corpus_scripts()]
     for i in range(2 if quick else 6):
-        lines, evs, meta = gen_conversation(rnd, nreloads=500 if quick else 1500, setsize=rnd.choice([150, 400]), nkeys=(8 if i % 2 == 0 else rnd.choice([40, 70, 140])), disjoint=(i % 2 == 1))
+        lines, evs, meta = gen_conversation(rnd, nreloads=500 if quick else 1500, setsize=rnd.choice([150, 400]), nkeys=(8 if i % 2 == 0 else rnd.choice([40, 70, 140])), disjoint=(i % 2 == 1), bad_p=0.04)
         # odd runs: enough router keys for the old and the new key table to be at different steps of the hash table's growth
         plan.append(("gen%d %s" % (i, meta), "\n".join(script_text(lines, evs, readers)) + "\n"))
     totals = {"reader_ops": 0, "key_ops": 0, "during_reload": 0, "during_reload_answer_differs": 0, "reloads_done": 0, "callbacks": 0}
